@@ -118,12 +118,16 @@ class Rule:
                         if isinstance(datum, k):
                             try:
                                 datum = v(datum)
-                                break
                             except (TypeError, ValueError):
                                 # e.g. `int("abc")` raises ValueError
-                                pass
-                    datum_path = DataPath(*datum_path)
-                    set_datum(data_copy, datum_path, datum)
+                                continue
+                            # write only a successful cast into the copy, indexing it
+                            # by the concrete path (keys/indices of any type):
+                            container = data_copy
+                            for key in datum_path[:-1]:
+                                container = container[key]
+                            container[datum_path[-1]] = datum
+                            break
 
         return RuleTest(self, data_copy)
 
